@@ -25,6 +25,7 @@ TEST_FILE = '''package {pkg}
 import (
 	"testing"
 
+	"scnmod/apitesting"
 	"scnmod/scnlib"
 
 	"github.com/gkampitakis/go-snaps/snaps"
@@ -80,6 +81,8 @@ func call{suf}(rt *scnlib.RecT, st scnlib.Step) {{
 		helperNonTest(rt, st, st.Depth)
 	case "helper_pkg":
 		scnlib.DoCallDepth(rt, st, st.Depth)
+	case "helper_testingfile":
+		apitesting.Assert(rt, st)
 	default:
 		direct{suf}(rt, st)
 	}}
@@ -234,6 +237,12 @@ def write_scn(dst, repo):
     shutil.copy(os.path.join(repo, "go.sum"), os.path.join(dst, "go.sum"))
     os.makedirs(os.path.join(dst, "scnlib"), exist_ok=True)
     shutil.copy(os.path.join(VERIF, "bb", "scn", "scnlib", "scnlib.go"), os.path.join(dst, "scnlib", "scnlib.go"))
+    # a project's own assertion helpers: a NON-test file called testing.go in a directory whose name ends in "testing"
+    os.makedirs(os.path.join(dst, "apitesting"), exist_ok=True)
+    with open(os.path.join(dst, "apitesting", "testing.go"), "w") as f:
+        f.write('// Package apitesting holds assertion helpers of the project under test.\npackage apitesting\n\nimport "scnmod/scnlib"\n\n'
+                '// Assert makes the Match* call on behalf of the test (through the shared helper package).\n'
+                'func Assert(rt *scnlib.RecT, st scnlib.Step) { assert(rt, st) }\n\nfunc assert(rt *scnlib.RecT, st scnlib.Step) { scnlib.DoCall(rt, st) }\n')
     pkgs = []
     for rel, pkg, files in LAYOUT:
         d = os.path.join(dst, rel)
